@@ -504,6 +504,12 @@ DIRECTED = [
      dict(_p(persistent=True, initdef=True), no_storage=True, no_storage_all=True)],
     [dict(_p(dests=[1, 2]), kind='valuepoll', poll_i=5, poll_k=0, **{'async': [8, 'poll', 0]}),
      _p(persistent=True, restore='sets', regular='sets'), _p(persistent=True, restore='noeffect', initdef=True)],
+    # a block whose only source is its async routine gets an event (that does not set its output) while
+    # the restored states / the first poll are being processed: it still needs its async routine
+    [_p(persistent=True, restore='sets', dests=[1]), dict(_p(hsets=False), **{'async': [8, 'done', 2]})],
+    [dict(_p(hsets=False), **{'async': [8, 'done', 2]}), _p(persistent=True, restore='sets', dests=[0])],
+    [dict(_p(dests=[1]), kind='valuepoll', poll_i=5, poll_k=0, **{'async': [8, 'poll', 0]}),
+     dict(_p(hsets=False), **{'async': [8, 'done', 2]})],
     # a restored state feeds an event back into the restoring block
     [_p(persistent=True, restore='sets', dests=[1]), _p(dests=[0])],
     [_p(persistent=True, restore='sets', dests=[1]), _p(regular='sets', dests=[0, 2]), _p(dests=[0])],
